@@ -811,6 +811,355 @@ Proof.
     eapply IH; [|exact Rn]. apply Forall2_app; assumption.
 Qed.
 
+(* ------------------------------------------------------------------ rejected streams
+   e_step_completes needs no hypothesis on the closures; the same history-similarity argument
+   also decides what happens when the container operation does NOT complete.  Which branch a
+   Record operator takes, and whether it panics, depends on the operand histories only, so the
+   closure evaluation of the container run and of the element-by-element run end the same way
+   (both panic, or both produce streams with the same histories); the errors of the collect
+   stage (InconsistentHistory / Empty / Shape) are a function of the histories and the length
+   of the stream, hence the same verdict on both streams. *)
+Definition rsim (a b : option (outcome (tape * rec))) : Prop :=
+  match a, b with
+  | Some (Ok (_, y)), Some (Ok (_, y')) => r_hist y = r_hist y'
+  | Some Panic, Some Panic => True
+  | None, None => True
+  | _, _ => False
+  end.
+
+Lemma rec_unary_code_rsim code c (x x' : rec) t t' : r_hist x = r_hist x' ->
+  rsim (rec_unary_code ops t code c x) (rec_unary_code ops t' code c x').
+Proof.
+  intros Hh. unfold rec_unary_code. destruct code as [|code].
+  - unfold rec_neg. rewrite <- Hh. destruct (r_hist x) as [h|] eqn:Eh; [|reflexivity].
+    unfold rec_binary. cbn [rec_constant r_hist r_num r_idx same_list negb]. rewrite <- Hh, Eh. cbn. reflexivity.
+  - destruct (unfn_of ops (S code) c) as [f|]; [|exact I]. unfold rec_unary. rewrite <- Hh.
+    destruct (r_hist x); cbn; reflexivity.
+Qed.
+
+Lemma rec_binary_rsim f (x x' y y' : rec) t t' : r_hist x = r_hist x' -> r_hist y = r_hist y' ->
+  rsim (Some (rec_binary ops t f x y)) (Some (rec_binary ops t' f x' y')).
+Proof.
+  intros Hx Hy. unfold rec_binary. rewrite <- Hx, <- Hy. destruct (negb _); [exact I|].
+  destruct (r_hist x), (r_hist y); cbn; reflexivity.
+Qed.
+
+Lemma rec_eval_rsim first : forall e (x x' : rec) t t', r_hist x = r_hist x' ->
+  rsim (rec_eval ops t e x first) (rec_eval ops t' e x' first).
+Proof.
+  induction e as [|c|e1 IH1|code c e1 IH1|code e1 IH1 e2 IH2|e1 IH1 e2 IH2|]; intros x x' t t' Hh; cbn [rec_eval].
+  - exact Hh.
+  - reflexivity.
+  - pose proof (IH1 x x' t t' Hh) as Q.
+    destruct (rec_eval ops t e1 x first) as [[[t2 r]|e0|]|], (rec_eval ops t' e1 x' first) as [[[t2' r']|e0'|]|];
+      cbn [rsim] in Q |- *; try contradiction; try exact I. reflexivity.
+  - pose proof (IH1 x x' t t' Hh) as Q.
+    destruct (rec_eval ops t e1 x first) as [[[t2 r]|e0|]|], (rec_eval ops t' e1 x' first) as [[[t2' r']|e0'|]|];
+      cbn [rsim] in Q |- *; try contradiction; try exact I. apply rec_unary_code_rsim. exact Q.
+  - destruct (binfn_of ops code) as [f|]; [|exact I].
+    pose proof (IH1 x x' t t' Hh) as Q.
+    destruct (rec_eval ops t e1 x first) as [[[t2 r]|e0|]|], (rec_eval ops t' e1 x' first) as [[[t2' r']|e0'|]|];
+      cbn [rsim] in Q |- *; try contradiction; try exact I.
+    pose proof (IH2 x x' t2 t2' Hh) as Q2.
+    destruct (rec_eval ops t2 e2 x first) as [[[t3 r2]|e1'|]|], (rec_eval ops t2' e2 x' first) as [[[t3' r2']|e1''|]|];
+      cbn [rsim] in Q2 |- *; try contradiction; try exact I. apply rec_binary_rsim; assumption.
+  - destruct first; [apply IH1|apply IH2]; exact Hh.
+  - reflexivity.
+Qed.
+
+Definition lsim (a b : option (outcome (tape * list rec))) : Prop :=
+  match a, b with
+  | Some (Ok (_, ys)), Some (Ok (_, ys')) => hsim ys ys'
+  | Some Panic, Some Panic => True
+  | None, None => True
+  | _, _ => False
+  end.
+
+Lemma eval_each_rsim e : forall (rs rs' : list rec) first t t', hsim rs rs' ->
+  lsim (eval_each ops t e rs first) (eval_each ops t' e rs' first).
+Proof.
+  induction rs as [|r rest IH]; intros [|r' rest'] first t t' H; cbn in H; try discriminate.
+  - cbn. reflexivity.
+  - inversion H as [[H1 H2]]. cbn [eval_each].
+    pose proof (rec_eval_rsim first e r r' t t' H1) as Q.
+    destruct (rec_eval ops t e r first) as [[[t2 y]|e0|]|], (rec_eval ops t' e r' first) as [[[t2' y']|e0'|]|];
+      cbn [rsim] in Q; cbn [lsim]; try contradiction; try exact I.
+    pose proof (IH rest' false t2 t2' H2) as Q2.
+    destruct (eval_each ops t2 e rest false) as [[[t3 ys]|e1|]|], (eval_each ops t2' e rest' false) as [[[t3' ys']|e1'|]|];
+      cbn [lsim] in Q2 |- *; try contradiction; try exact I.
+    unfold hsim in *. cbn. congruence.
+Qed.
+
+(* the verdict of the collect stage depends on the histories and the length of the stream only *)
+Lemma consistent_history_hsim (ys ys' : list rec) : hsim ys ys' -> consistent_history ys = consistent_history ys'.
+Proof.
+  destruct ys as [|r rest], ys' as [|r' rest']; intros H; cbn in H; try discriminate; [reflexivity|].
+  inversion H as [[H1 H2]]. cbn [consistent_history]. rewrite <- H1. clear H H1. revert rest' H2.
+  induction rest as [|q rest IH]; intros [|q' rest'] H2; cbn in H2; try discriminate; [reflexivity|].
+  inversion H2 as [[Q1 Q2]]. cbn [forallb]. rewrite <- Q1, (IH rest' Q2). reflexivity.
+Qed.
+
+Lemma c_from_iter_verdict tensor sh (ys ys' : list rec) code : hsim ys ys' ->
+  c_from_iter tensor sh ys = Err code -> c_from_iter tensor sh ys' = Err code.
+Proof.
+  intros H. unfold c_from_iter. rewrite <- (consistent_history_hsim _ _ H), <- (hsim_length _ _ H).
+  destruct (negb (consistent_history ys)); [auto|].
+  destruct ys as [|r rest], ys' as [|r' rest']; cbn in H; try discriminate; [auto|].
+  destruct (if tensor then _ else _); [discriminate|auto].
+Qed.
+
+Lemma c_from_iter_no_panic tensor sh (ys : list rec) : c_from_iter tensor sh ys <> Panic.
+Proof.
+  unfold c_from_iter. destruct (negb _); [discriminate|]. destruct ys; [discriminate|].
+  destruct (if tensor then _ else _); discriminate.
+Qed.
+
+(* map / map_mut / from_iter with ANY closure (no `supported` hypothesis), when the container
+   operation does not complete: it panics exactly when the element-by-element run of the same
+   closure panics; it returns an error value exactly when the element-by-element run completes
+   and the collect rule (c_from_iter: InconsistentHistory if a later history differs from the
+   first, else Empty, else Shape) rejects the stream of records THAT run produced, with the
+   same error value. *)
+Theorem rejected_streams cenv eenv ct et o r : Forall2 hl cenv eenv ->
+  (exists mu e a, o = OMap mu e a) \/ (exists tensor sh cm e a, o = OFromIter tensor sh cm e a) ->
+  cstep ops (ct, cenv) o = Some r ->
+  match r with
+  | Ok _ => True
+  | Panic => estep ops (et, eenv) o = Some Panic
+  | Err code => exists et' x, estep ops (et, eenv) o = Some (Ok (et', [x])) /\
+                  c_from_iter (e_tensor x) (e_shape x) (e_recs x) = Err code
+  end.
+Proof.
+  intros F [(mu & e & a & ->)|(tensor & sh & cm & e & a & ->)]; cbn [cstep estep].
+  - destruct (nth_error cenv a) as [cx|] eqn:Ea; [|discriminate].
+    destruct (Forall2_nth_error _ _ _ _ _ F Ea) as (ex & Ee & [[L1 L2] Hh]). rewrite Ee. unfold c_map.
+    pose proof (eval_each_rsim e _ _ true ct et Hh) as Q.
+    destruct (eval_each ops ct e (as_records cx) true) as [[[t1 ys]|e0|]|], (eval_each ops et e (e_recs ex) true) as [[[t1' ys']|e0'|]|];
+      cbn [lsim] in Q; try contradiction; try discriminate.
+    + destruct (c_from_iter (c_tensor cx) (c_shape cx) ys) as [c|code|] eqn:Ef; intros E; inversion E; subst.
+      * exact I.
+      * eexists _, _. split; [reflexivity|]. cbn [e_tensor e_shape e_recs]. rewrite <- L1, <- L2.
+        eapply c_from_iter_verdict; eauto.
+      * exfalso. eapply c_from_iter_no_panic; eauto.
+    + intros E; inversion E; subst. reflexivity.
+  - destruct (nth_error cenv a) as [cx|] eqn:Ea; [|discriminate].
+    destruct (Forall2_nth_error _ _ _ _ _ F Ea) as (ex & Ee & [[L1 L2] Hh]). rewrite Ee.
+    rewrite <- L1, <- L2. destruct (cm && c_tensor cx); [discriminate|].
+    destruct (negb tensor && negb (Nat.eqb (length sh) 2)); [discriminate|].
+    assert (Hh' : hsim (if cm then column_major (c_shape cx) (as_records cx) else as_records cx)
+                       (if cm then column_major (c_shape cx) (e_recs ex) else e_recs ex)).
+    { destruct cm; [apply hsim_column_major|]; exact Hh. }
+    pose proof (eval_each_rsim e _ _ true ct et Hh') as Q.
+    destruct (eval_each ops ct e (if cm then column_major (c_shape cx) (as_records cx) else as_records cx) true)
+      as [[[t1 ys]|e0|]|],
+      (eval_each ops et e (if cm then column_major (c_shape cx) (e_recs ex) else e_recs ex) true) as [[[t1' ys']|e0'|]|];
+      cbn [lsim] in Q; try contradiction; try discriminate.
+    + destruct (c_from_iter tensor sh ys) as [c|code|] eqn:Ef; cbn [omap]; intros E; inversion E; subst.
+      * exact I.
+      * eexists _, _. split; [reflexivity|]. cbn [e_tensor e_shape e_recs]. eapply c_from_iter_verdict; eauto.
+      * exfalso. eapply c_from_iter_no_panic; eauto.
+    + intros E; inversion E; subst. reflexivity.
+Qed.
+
+(* ---- the same for from_iters::<2> and from_iters::<N> *)
+Definition l2sim (a b : option (outcome (tape * (list rec * list rec)))) : Prop :=
+  match a, b with
+  | Some (Ok (_, (y1, y2))), Some (Ok (_, (z1, z2))) => hsim y1 z1 /\ hsim y2 z2
+  | Some Panic, Some Panic => True
+  | None, None => True
+  | _, _ => False
+  end.
+
+Lemma eval_each2_rsim e1 e2 : forall (rs rs' : list rec) first t t', hsim rs rs' ->
+  l2sim (eval_each2 ops t e1 e2 rs first) (eval_each2 ops t' e1 e2 rs' first).
+Proof.
+  induction rs as [|r rest IH]; intros [|r' rest'] first t t' H; cbn in H; try discriminate.
+  - cbn. split; reflexivity.
+  - inversion H as [[H1 H2]]. cbn [eval_each2].
+    pose proof (rec_eval_rsim first e1 r r' t t' H1) as Q.
+    destruct (rec_eval ops t e1 r first) as [[[t2 y]|e0|]|], (rec_eval ops t' e1 r' first) as [[[t2' y']|e0'|]|];
+      cbn [rsim] in Q; cbn [l2sim]; try contradiction; try exact I.
+    pose proof (rec_eval_rsim first e2 r r' t2 t2' H1) as Q1.
+    destruct (rec_eval ops t2 e2 r first) as [[[t3 w]|e1'|]|], (rec_eval ops t2' e2 r' first) as [[[t3' w']|e1''|]|];
+      cbn [rsim] in Q1; cbn [l2sim]; try contradiction; try exact I.
+    pose proof (IH rest' false t3 t3' H2) as Q2.
+    destruct (eval_each2 ops t3 e1 e2 rest false) as [[[t4 [a b]]|e2'|]|],
+             (eval_each2 ops t3' e1 e2 rest' false) as [[[t4' [a' b']]|e2''|]|];
+      cbn [l2sim] in Q2 |- *; try contradiction; try exact I.
+    destruct Q2 as [Qa Qb]. unfold hsim in *. cbn. split; congruence.
+Qed.
+
+Lemma eval_list_rsim first : forall es (x x' : rec) t t', r_hist x = r_hist x' ->
+  lsim (eval_list ops t es x first) (eval_list ops t' es x' first).
+Proof.
+  induction es as [|e er IH]; intros x x' t t' Hh; cbn [eval_list].
+  - cbn. reflexivity.
+  - pose proof (rec_eval_rsim first e x x' t t' Hh) as Q.
+    destruct (rec_eval ops t e x first) as [[[t2 y]|e0|]|], (rec_eval ops t' e x' first) as [[[t2' y']|e0'|]|];
+      cbn [rsim] in Q; cbn [lsim]; try contradiction; try exact I.
+    pose proof (IH x x' t2 t2' Hh) as Q2.
+    destruct (eval_list ops t2 er x first) as [[[t3 ys]|e1|]|], (eval_list ops t2' er x' first) as [[[t3' ys']|e1'|]|];
+      cbn [lsim] in Q2 |- *; try contradiction; try exact I.
+    unfold hsim in *. cbn. congruence.
+Qed.
+
+Definition lNsim (a b : option (outcome (tape * list (list rec)))) : Prop :=
+  match a, b with
+  | Some (Ok (_, cols)), Some (Ok (_, cols')) => hsims cols cols'
+  | Some Panic, Some Panic => True
+  | None, None => True
+  | _, _ => False
+  end.
+
+Lemma eval_eachN_rsim es : forall (rs rs' : list rec) first t t', hsim rs rs' ->
+  lNsim (eval_eachN ops t es rs first) (eval_eachN ops t' es rs' first).
+Proof.
+  induction rs as [|r rest IH]; intros [|r' rest'] first t t' H; cbn in H; try discriminate.
+  - cbn. clear. induction es; cbn [map]; constructor; [reflexivity|assumption].
+  - inversion H as [[H1 H2]]. cbn [eval_eachN].
+    pose proof (eval_list_rsim first es r r' t t' H1) as Q.
+    destruct (eval_list ops t es r first) as [[[t2 ys]|e0|]|], (eval_list ops t' es r' first) as [[[t2' ys']|e0'|]|];
+      cbn [lsim] in Q; cbn [lNsim]; try contradiction; try exact I.
+    pose proof (IH rest' false t2 t2' H2) as Q2.
+    destruct (eval_eachN ops t2 es rest false) as [[[t3 cr]|e1|]|], (eval_eachN ops t2' es rest' false) as [[[t3' cr']|e1'|]|];
+      cbn [lNsim] in Q2 |- *; try contradiction; try exact I.
+    apply push_row_hsim; assumption.
+Qed.
+
+Lemma hsim_sym (a b : list rec) : hsim a b -> hsim b a.
+Proof. unfold hsim. intros H. symmetry. exact H. Qed.
+
+(* the collect rule gives the same verdict (accepted, or the same error value) on streams with
+   the same histories *)
+Lemma c_from_iter_sim tensor sh (ys ys' : list rec) : hsim ys ys' ->
+  match c_from_iter tensor sh ys, c_from_iter tensor sh ys' with
+  | Ok _, Ok _ => True
+  | Err a, Err b => a = b
+  | _, _ => False
+  end.
+Proof.
+  intros H. destruct (c_from_iter tensor sh ys) as [c|a|] eqn:E1.
+  - destruct (c_from_iter tensor sh ys') as [c'|b|] eqn:E2; [exact I| |].
+    + rewrite (c_from_iter_verdict _ _ _ _ _ (hsim_sym _ _ H) E2) in E1. discriminate.
+    + exfalso. eapply c_from_iter_no_panic; eauto.
+  - rewrite (c_from_iter_verdict _ _ _ _ _ H E1). reflexivity.
+  - exfalso. eapply c_from_iter_no_panic; eauto.
+Qed.
+
+(* from_iters::<2> (OFromIters2), any two closures *)
+Theorem rejected_streams2 cenv eenv ct et e1 e2 a r : Forall2 hl cenv eenv ->
+  cstep ops (ct, cenv) (OFromIters2 e1 e2 a) = Some r ->
+  match r with
+  | Ok _ => True
+  | Panic => estep ops (et, eenv) (OFromIters2 e1 e2 a) = Some Panic
+  | Err code => exists et' x1 x2, estep ops (et, eenv) (OFromIters2 e1 e2 a) = Some (Ok (et', [x1; x2])) /\
+      match c_from_iter (e_tensor x1) (e_shape x1) (e_recs x1), c_from_iter (e_tensor x2) (e_shape x2) (e_recs x2) with
+      | Err e0, _ => e0 = code
+      | Ok _, Err e0 => e0 = code
+      | _, _ => False
+      end
+  end.
+Proof.
+  intros F. cbn [cstep estep].
+  destruct (nth_error cenv a) as [cx|] eqn:Ea; [|discriminate].
+  destruct (Forall2_nth_error _ _ _ _ _ F Ea) as (ex & Ee & [[L1 L2] Hh]). rewrite Ee.
+  pose proof (eval_each2_rsim e1 e2 _ _ true ct et Hh) as Q.
+  destruct (eval_each2 ops ct e1 e2 (as_records cx) true) as [[[t1 [ys1 ys2]]|e0|]|],
+           (eval_each2 ops et e1 e2 (e_recs ex) true) as [[[t1' [zs1 zs2]]|e0'|]|];
+    cbn [l2sim] in Q; try contradiction; try discriminate.
+  - destruct Q as [Q1 Q2].
+    pose proof (c_from_iter_sim (c_tensor cx) (c_shape cx) _ _ Q1) as S1.
+    pose proof (c_from_iter_sim (c_tensor cx) (c_shape cx) _ _ Q2) as S2.
+    pose proof (c_from_iter_no_panic (c_tensor cx) (c_shape cx) ys1) as N1.
+    pose proof (c_from_iter_no_panic (c_tensor cx) (c_shape cx) ys2) as N2.
+    destruct (c_from_iter (c_tensor cx) (c_shape cx) ys1) as [c1|a1|], (c_from_iter (c_tensor cx) (c_shape cx) ys2) as [c2|a2|];
+      intros E; inversion E; subst; try exact I; try (exfalso; apply N1; reflexivity); try (exfalso; apply N2; reflexivity);
+      (eexists _, _, _; split; [reflexivity|]; cbn [omap fst snd e_tensor e_shape e_recs]; rewrite <- L1, <- L2;
+       destruct (c_from_iter (c_tensor cx) (c_shape cx) zs1), (c_from_iter (c_tensor cx) (c_shape cx) zs2);
+       try contradiction; congruence).
+  - intros E; inversion E; subst. reflexivity.
+Qed.
+
+(* from_iters::<N> (OCollect): the error value is the list of per-output verdicts, computed by
+   the collect rule on the N streams of the element-by-element run *)
+Theorem rejected_streamsN cenv eenv ct et tensor sh cm take es a r : Forall2 hl cenv eenv ->
+  cstep ops (ct, cenv) (OCollect tensor sh cm take es a) = Some r ->
+  match r with
+  | Ok _ => True
+  | Panic => estep ops (et, eenv) (OCollect tensor sh cm take es a) = Some Panic
+  | Err code => exists et' xs, estep ops (et, eenv) (OCollect tensor sh cm take es a) = Some (Ok (et', xs)) /\
+      code = SL (map (fun x => collect_code (c_from_iter (e_tensor x) (e_shape x) (e_recs x))) xs) /\
+      exists x, In x xs /\ forall c, c_from_iter (e_tensor x) (e_shape x) (e_recs x) <> Ok c
+  end.
+Proof.
+  intros F. cbn [cstep estep].
+  destruct (nth_error cenv a) as [cx|] eqn:Ea; [|discriminate].
+  destruct (Forall2_nth_error _ _ _ _ _ F Ea) as (ex & Ee & [[L1 L2] Hh]). rewrite Ee.
+  rewrite <- L1, <- L2. destruct (cm && c_tensor cx); [discriminate|].
+  destruct (negb tensor && negb (Nat.eqb (length sh) 2)); [discriminate|].
+  destruct (Nat.eqb (length es) 0); [discriminate|].
+  assert (Hh' : hsim (firstn take (if cm then column_major (c_shape cx) (as_records cx) else as_records cx))
+                     (firstn take (if cm then column_major (c_shape cx) (e_recs ex) else e_recs ex))).
+  { apply hsim_firstn. destruct cm; [apply hsim_column_major|]; exact Hh. }
+  pose proof (eval_eachN_rsim es _ _ true ct et Hh') as Q.
+  destruct (eval_eachN ops ct es (firstn take (if cm then column_major (c_shape cx) (as_records cx) else as_records cx)) true)
+    as [[[t1 cols]|e0|]|],
+    (eval_eachN ops et es (firstn take (if cm then column_major (c_shape cx) (e_recs ex) else e_recs ex)) true)
+    as [[[t1' cols']|e0'|]|]; cbn [lNsim] in Q; try contradiction; try discriminate.
+  - assert (K : map (@collect_code R) (map (c_from_iter tensor sh) cols) =
+                map (fun x => collect_code (c_from_iter (e_tensor x) (e_shape x) (e_recs x))) (map (mkECont tensor sh) cols')).
+    { clear -Q. induction Q as [|ys zs cr cr' Hy _ IH]; cbn [map]; [reflexivity|]. f_equal; [|exact IH].
+      cbn [e_tensor e_shape e_recs]. pose proof (c_from_iter_sim tensor sh _ _ Hy) as S.
+      destruct (c_from_iter tensor sh ys), (c_from_iter tensor sh zs); try contradiction; cbn [collect_code]; congruence. }
+    destruct (collect_all (map (c_from_iter tensor sh) cols)) as [cs|] eqn:Ec; intros E; inversion E; subst; [exact I|].
+    eexists _, _. split; [reflexivity|]. cbn [omap fst snd]. split; [rewrite K; reflexivity|].
+    (* some output was rejected *)
+    clear -Ec Q. unfold collect_all in Ec. revert cols' Q Ec.
+    induction cols as [|ys cr IH]; intros cols' Q Ec; [discriminate Ec|].
+    inversion Q as [|? zs ? cr' Hy Hr]; subst. cbn [map sequence] in Ec.
+    pose proof (c_from_iter_sim tensor sh _ _ Hy) as S.
+    destruct (c_from_iter tensor sh ys) as [c|a0|] eqn:E1.
+    + destruct (sequence (map (fun r => match r with Ok c0 => Some c0 | _ => None end) (map (c_from_iter tensor sh) cr))) eqn:E2;
+        [discriminate Ec|].
+      destruct (IH cr' Hr eq_refl) as (x & Hx & Hn). exists x. split; [right; exact Hx|exact Hn].
+    + exists (mkECont tensor sh zs). split; [left; reflexivity|]. intros c Hc. cbn [e_tensor e_shape e_recs] in Hc. try rewrite Hc in S. exact S.
+    + exists (mkECont tensor sh zs). split; [left; reflexivity|]. intros c Hc. cbn [e_tensor e_shape e_recs] in Hc. try rewrite Hc in S. exact S.
+  - intros E; inversion E; subst. reflexivity.
+Qed.
+
+(* a container run that stops at an operation: the element-by-element run completes every
+   operation before it and the two states are linked there, so the step theorems above apply
+   to the operation that was rejected *)
+Theorem rejected_run : forall prog ct cenv eenv n m r et n',
+  Forall2 hl cenv eenv -> crun ops (ct, cenv) n prog = Some (m, r) -> (forall st, r <> Ok st) ->
+  exists pre o post ct1 cenv1 m1 et1 eenv1 r1,
+    prog = pre ++ o :: post /\ m = n + length pre /\
+    crun ops (ct, cenv) n pre = Some (m, Ok (ct1, cenv1)) /\
+    erun ops (et, eenv) n' pre = Some (m1, Ok (et1, eenv1)) /\ Forall2 hl cenv1 eenv1 /\
+    cstep ops (ct1, cenv1) o = Some r1 /\
+    match r, r1 with Err a, Err b => a = b | Panic, Panic => True | _, _ => False end.
+Proof.
+  induction prog as [|o rest IH]; intros ct cenv eenv n m r et n' F; cbn [crun].
+  - intros E Hn. inversion E; subst. exfalso. eapply Hn. reflexivity.
+  - destruct (cstep ops (ct, cenv) o) as [[[t1 cs]|e|]|] eqn:Ec; try discriminate.
+    + destruct (forallb _ cs) eqn:Ef; [|discriminate]. cbn [snd]. intros Rn Hn.
+      destruct (e_step_completes _ _ _ _ _ _ et F Ec) as (t2 & es & Ee & Fs).
+      destruct (IH t1 (cenv ++ cs) (eenv ++ es) (S n) m r t2 (S n') (Forall2_app F Fs) Rn Hn)
+        as (pre & o1 & post & ct1 & cenv1 & m1 & et1 & eenv1 & r1 & Hp & Hm & Hc & He & Hl & Hs & Hr).
+      exists (o :: pre), o1, post, ct1, cenv1, m1, et1, eenv1, r1.
+      split; [rewrite Hp; reflexivity|]. split; [cbn [length]; lia|].
+      split; [cbn [crun]; rewrite Ec, Ef; exact Hc|]. split; [cbn [erun]; rewrite Ee; exact He|].
+      split; [exact Hl|]. split; [exact Hs|exact Hr].
+    + intros E Hn. inversion E; subst.
+      exists [], o, rest, ct, cenv, n', et, eenv, (Err e). cbn [app length crun erun].
+      split; [reflexivity|]. split; [lia|]. split; [reflexivity|]. split; [reflexivity|]. split; [exact F|].
+      split; [exact Ec|reflexivity].
+    + intros E Hn. inversion E; subst.
+      exists [], o, rest, ct, cenv, n', et, eenv, Panic. cbn [app length crun erun].
+      split; [reflexivity|]. split; [lia|]. split; [reflexivity|]. split; [reflexivity|]. split; [exact F|].
+      split; [exact Ec|exact I].
+Qed.
+
 End C06Q.
 
 (* ------------------------------------------------------------------ the complete statement *)
